@@ -33,7 +33,7 @@ def dtype_classes():
     from frappy import datatypes as D
     return {'double': D.FloatRange, 'int': D.IntRange, 'scaled': D.ScaledInteger, 'string': D.StringType,
             'bool': D.BoolType, 'enum': D.EnumType, 'blob': D.BLOBType, 'array': D.ArrayOf, 'tuple': D.TupleOf,
-            'struct': D.StructOf, 'value': D.ValueType}
+            'struct': D.StructOf, 'limits': D.LimitsType, 'value': D.ValueType}
 
 
 def export_rows(cls, skip):
